@@ -18,7 +18,7 @@ OBLIGATIONS = ['PGA.Ring.' + t for t in [
     'C09_tab_refs_defined_enhanced', 'C09_tab_refs_defined_strict', 'C09_tab_tokens_nonempty_enhanced',
     'C09_tab_tokens_nonempty_strict', 'C09_tab_wellranked_enhanced', 'C09_tab_wellranked_strict',
     'C09_tab_decimal_convertible', 'C09_tab_plain_enhanced', 'C09_never_stuck', 'C09_shipped_never_stuck',
-    'C09_position_invariant', 'C09_error_inside', 'C09_accepted_consumed', 'C09_read_query_consumed',
+    'C09_position_invariant', 'C09_update_furthest', 'C09_error_inside', 'C09_accepted_consumed', 'C09_read_query_consumed',
     'C09_read_syntax_inside', 'C09_read_no_hang', 'C09_read_internal_only_shape', 'C09_tree_conforms', 'C09_read_total']]
 # table obligations behind C09_read_total: the child-kind tables of the rules the readers visit (PGA/Proofs/RingReadSafe.lean)
 OBLIGATIONS += ['PGA.Ring.' + t for t in ['one_Symbols', 'one_AtomSuffix', 'one_AtomPrefix', 'one_AtomLabel', 'one_BondType', 'one_Boolean', 'one_GroupName', 'one_FragmentName', 'one_ReactantName', 'one_ReactionName', 'one_StereoType', 'rk_AtomType', 'rk_ConstraintNumber', 'rk_Conn', 'rk_Ring', 'rk_Radical', 'rk_NRing', 'rk_Constraints', 'rk_ConstraintChain', 'rk_Atom', 'rk_BondedAtom', 'rk_RingBond', 'rk_Stereo', 'rk_AtomChain', 'rk_MolQuery', 'rk_Fragment', 'rk_ReactantQuery', 'rk_LabelMapping', 'rk_ReactantGroup', 'rk_Duplicates', 'rk_Reactants', 'rk_BondForm', 'rk_BondBreak', 'rk_BondModify', 'rk_BondIncrease', 'rk_BondDecrease', 'rk_AtomTypeModify', 'rk_RadicalModify', 'rk_RadicalIncrease', 'rk_RadicalDecrease', 'rk_ChargeIncrease', 'rk_ChargeDecrease', 'rk_Change', 'rk_TransChain', 'rk_Rule', 'rk_Input']]
